@@ -124,7 +124,8 @@ def pairs_for(rng, refs):
 
 
 def pair_job(arg):
-    sz, gitdir, d, jid, fam, desc, A, B, expect, scope = arg
+    sz, gitdir, d, jid, fam, desc, A, B, expect, scope = arg[:10]
+    shimdir = arg[10] if len(arg) > 10 else None
 
     def run(side, tag):
         cfg, argv = side
@@ -170,9 +171,16 @@ def pair_job(arg):
             sec, var = local[0].split(".", 1)
             with open(os.path.join(gd, "config"), "a") as f:
                 f.write('[%s]\n\t%s = "%s"\n' % (sec, var, local[1]))
+        plan = None
+        if cfg is not None and shimdir and (jid * 7 + len(desc)) % 3 == 0:
+            # the child that looks the setting up answers late (cold cache): its answer is still the one that counts
+            plan = R.make_plan(os.path.join(d, "slowcfg-%d%s" % (jid, tag)),
+                               [{"sig": "config --get " + cfg[0], "ord": -1, "mode": "delay", "pre_ms": 1300, "max_ms": 1500}])
         try:
-            return R.sizer(sz, gd, ["--no-progress"] + argv, env=env, tmpdir=d)
+            return R.sizer(sz, gd, ["--no-progress"] + argv, env=env, tmpdir=d, shimdir=shimdir, plan=plan)
         finally:
+            if plan:
+                shutil.rmtree(os.path.dirname(plan), ignore_errors=True)
             if gd != gitdir:
                 shutil.rmtree(gd, ignore_errors=True)
 
@@ -268,7 +276,7 @@ def run(chk, b, tier):
                 scopes = [rng.choice(["command", "global", "local", "parameters", "worktree"])] if tier == "quick" else \
                     ["command", "global", "local", "parameters", "worktree"]
             for sc in scopes:
-                jobs.append((sz, gitdir, d, jid, fam, desc, A, B, expect, sc))
+                jobs.append((sz, gitdir, d, jid, fam, desc, A, B, expect, sc, b.shimdir()))
                 jid += 1
         if ri == 0:
             progress_pairs(chk, sz, gitdir, d)
